@@ -379,9 +379,44 @@ Section Proofs.
   Qed.
 End Proofs.
 
+(* ---------- the constructors ---------- *)
+Lemma fold_options opts : forall r,
+  fold_left apply_option opts r
+  = RPF (f_pkce r || pkce_enabled opts)
+        (match configured_handler opts with Some k => Some k | None => f_handler r end)
+        (f_signer r || jwt_enabled opts).
+Proof.
+  induction opts as [|o opts IH]; intros [p h sg].
+  - cbn. now rewrite !orb_false_r.
+  - cbn [fold_left]. rewrite IH. unfold pkce_enabled, jwt_enabled. cbn [existsb configured_handler].
+    fold (pkce_enabled opts). fold (jwt_enabled opts).
+    destruct o as [k|k| |l]; cbn [apply_option f_pkce f_handler f_signer is_with_pkce is_with_jwt sets_handler orb];
+      destruct (configured_handler opts); rewrite ?orb_true_r, ?orb_false_r; reflexivity.
+Qed.
+
+Lemma construct_intended : forall s cfg, intended s = Some cfg -> construct s = cfg.
+Proof.
+  intros s cfg. unfold intended, construct. rewrite fold_options. cbn [rp_init f_pkce f_handler f_signer orb].
+  destruct (configured_handler (s_opts s)); [|discriminate]. now intros [= <-].
+Qed.
+
+Lemma constructor_pkce : forall s, c_pkce (construct s) = pkce_enabled (s_opts s).
+Proof. intro s. unfold construct. rewrite fold_options. reflexivity. Qed.
+
+Lemma constructor_handler : forall s k,
+  configured_handler (s_opts s) = Some k -> c_key (construct s) = k.
+Proof. intros s k Hk. unfold construct. rewrite fold_options. cbn. now rewrite Hk. Qed.
+
+Lemma discovery_irrelevant : forall opts cl rd sc ex d d',
+  d_auth d = d_auth d' ->
+  construct (Setup (NewOIDC d) opts cl rd sc ex) = construct (Setup (NewOIDC d') opts cl rd sc ex)
+  /\ construct (Setup (NewOIDC d) opts cl rd sc ex) = construct (Setup (NewOAuth (d_auth d)) opts cl rd sc ex).
+Proof. intros opts cl rd sc ex d d' Hd. unfold construct. cbn [s_ctor s_opts endpoint]. now rewrite Hd. Qed.
+
 Lemma spec_model_true : forall i, spec i (model i) = true.
 Proof.
-  intros [cfg tab j0 ops]. cbn [model spec]. unfold run. apply spec_run_model.
+  intros [s tab j0 ops]. cbn [model spec]. destruct (intended s) as [cfg|] eqn:Ei; [|reflexivity].
+  rewrite (construct_intended s cfg Ei). unfold run. apply spec_run_model.
   - intros Hh _. apply jar_honest_inv. unfold honest in Hh. now apply andb_true_iff in Hh as [H1 _].
   - intro Hh. unfold honest in Hh. now apply andb_true_iff in Hh as [_ H2].
 Qed.
@@ -487,10 +522,14 @@ Definition replay_ops : list op :=
   [OStart "a" "va"; OStart "b" "vb"; OSet "state" (Mac 0 "state" "a");
    OCallback [("state", "a"); ("code", "c")] true true].
 
+Definition replay_setup : setup :=
+  Setup (NewOAuth "https://op/auth") [WithPKCE 0] "cid" "https://rp/cb" ["openid"] [].
+
 Lemma replay_limit :
-  honest replay_cfg [] replay_ops = false
+  construct replay_setup = replay_cfg
+  /\ honest replay_cfg [] replay_ops = false
   /\ spec_run (hfun replay_tab) replay_cfg true [] [] replay_ops (run (hfun replay_tab) replay_cfg [] replay_ops) = false
-  /\ spec (Inp replay_cfg replay_tab [] replay_ops) (model (Inp replay_cfg replay_tab [] replay_ops)) = true.
+  /\ spec (Inp replay_setup replay_tab [] replay_ops) (model (Inp replay_setup replay_tab [] replay_ops)) = true.
 Proof. vm_compute. repeat split. Qed.
 
 (* non-vacuity of pkce_bound's hypotheses: two logins, the second one redeemed *)
@@ -504,3 +543,47 @@ Lemma pkce_bound_nonvacuous :
        = Some (j, lg, OCallback [("state", "b"); ("code", "c")] true true, EvCb h [r] cs)
        /\ t_verifier r = Some "vb".
 Proof. split; [reflexivity|]. split; [reflexivity|]. do 5 eexists. vm_compute. split; reflexivity. Qed.
+
+(* ---------- PKCE for every constructor and every discovery document ---------- *)
+Lemma pkce_any_constructor : forall H s,
+  pkce_enabled (s_opts s) = true ->
+  (forall st v, exists cs ps,
+      start_login H (construct s) st v = EvAuth cs (endpoint (s_ctor s)) ps
+      /\ In (pkce_cookie (construct s) v) cs
+      /\ plookup "code_challenge" ps = Some (H v)
+      /\ plookup "code_challenge_method" ps = Some "S256")
+  /\ (forall j q ok h reqs cs r,
+      callback (construct s) j q ok = EvCb h reqs cs -> In r reqs ->
+      exists v, t_verifier r = Some v
+                /\ jar_get "pkce" j = Some (Mac (c_key (construct s)) "pkce" v)).
+Proof.
+  intros H s Hp. rewrite <- constructor_pkce in Hp. split.
+  - intros st v. destruct (auth_url H (construct s) st v) as (cs & ps & He & _ & _ & Hc).
+    exists cs, ps. split; [exact He|]. exact (Hc Hp).
+  - intros j q ok h reqs cs r Hc Hr.
+    destruct (token_request_bound (construct s) j q ok h reqs cs r Hc Hr) as (_ & _ & _ & _ & Hv).
+    exact (Hv Hp).
+Qed.
+
+(* The property predicate itself rejects a "negotiated" fall-back: an RP built
+   WithPKCE by the discovery constructor against an OP announcing only "plain"
+   that answers the login with the plain code flow (state cookie only, no
+   challenge) - and a callback that sends no code_verifier. *)
+Definition fallback_doc : discovery :=
+  Disc "https://op/auth" (Some ["plain"]) None None None None.
+Definition fallback_setup : setup :=
+  Setup (NewOIDC fallback_doc) [WithPKCE 0] "cid" "https://rp/cb" ["openid"] [].
+Definition fallback_login : event :=
+  EvAuth [("state", Some (Mac 0 "state" "a"))] "https://op/auth"
+         [("response_type", "code"); ("client_id", "cid"); ("redirect_uri", "https://rp/cb");
+          ("scope", "openid"); ("state", "a")].
+Definition fallback_callback : event :=
+  EvCb (HApp "a") [TokReq "c" "https://rp/cb" "cid" None false] [("state", None)].
+
+Lemma spec_rejects_fallback :
+  spec (Inp fallback_setup [("va", "ha")] [] [OStart "a" ""]) (Obs [fallback_login]) = false
+  /\ spec (Inp fallback_setup [("va", "ha")] [("state", Mac 0 "state" "a"); ("pkce", Mac 0 "pkce" "va")]
+               [OCallback [("code", "c"); ("state", "a")] true true]) (Obs [fallback_callback]) = false
+  /\ spec (Inp fallback_setup [("va", "ha")] [] [OStart "a" "va"])
+          (model (Inp fallback_setup [("va", "ha")] [] [OStart "a" "va"])) = true.
+Proof. vm_compute. repeat split. Qed.
